@@ -21,7 +21,7 @@ import (
 
 // C19: unreadable rule lists degrade results to a subset, never crash or lie.
 
-var c19FaultKinds = []string{"storage-close", "closed-descriptor", "directory-descriptor", "pipe-descriptor", "closed-descriptor-of-another-file"}
+var c19FaultKinds = []string{"storage-close", "closed-descriptor", "directory-descriptor", "pipe-descriptor", "closed-descriptor-of-another-file", "storage-close-then-other-files-opened"}
 
 type c19Target struct {
 	kind    string // "dns" or "network"
@@ -30,6 +30,15 @@ type c19Target struct {
 	dns     *urlfilter.DNSEngine
 	net     *urlfilter.NetworkEngine
 	texts   map[int64]string // storage index -> rule text
+	later   []*os.File       // files opened after the fault, closed at the end
+}
+
+// release closes what the fault injection left open.
+func (t *c19Target) release() {
+	for _, f := range t.later {
+		_ = f.Close()
+	}
+	t.later = nil
 }
 
 func c19Build(kind, file string) (*c19Target, error) {
@@ -89,6 +98,18 @@ func c19Inject(t *c19Target, kind string, dir string) error {
 		old := t.list.File
 		t.list.File = f
 		_ = old.Close()
+	case "storage-close-then-other-files-opened":
+		// After the list is closed the process opens other files, which get the
+		// descriptor numbers the list's file had; they hold other matching rules
+		// at the same offsets and stay open.
+		err := t.storage.Close()
+		for i := 0; i < 4; i++ {
+			if f, oerr := os.Open(filepath.Join(dir, "decoy.txt")); oerr == nil {
+				t.later = append(t.later, f)
+			}
+		}
+
+		return err
 	case "closed-descriptor-of-another-file":
 		// The closed handle carries the name of a file with other rules at the
 		// same offsets; nothing of it may ever be served.
@@ -249,6 +270,7 @@ func c19Big(c *core.Ctx, n int) {
 		c.Eval(1)
 		c.Event("big_list_rules_demanded_after_fault", int64(n))
 		_ = t.storage.Close()
+		t.release()
 	}
 	c.NonTrivial(core.Hash64("big", strconv.Itoa(n)))
 }
@@ -443,7 +465,7 @@ func c19Run(c *core.Ctx, idx int) {
 			faulted := false
 			for i, q := range hist {
 				if i == k {
-					if ierr := c19Inject(t, fault, dir); ierr != nil && fault != "storage-close" {
+					if ierr := c19Inject(t, fault, dir); ierr != nil && !strings.HasPrefix(fault, "storage-close") {
 						c.Inconclusive("fault injection failed")
 					}
 					faulted = true
@@ -524,6 +546,7 @@ func c19Run(c *core.Ctx, idx int) {
 				c.Violation("cache-shrunk:"+fault, nil, w, "cache holds %d rules although %d were inserted", t.storage.GetCacheSize(), len(materialised))
 			}
 			_ = t.storage.Close()
+			t.release()
 			c.Event("fault_points", 1)
 		}
 	}
@@ -539,8 +562,8 @@ func init() {
 	core.Register(&core.Prop{
 		ID:    "C19",
 		Level: "fault_enumeration",
-		Rule: "per case one file-backed list (DNS: rules + hosts lines over colliding names; network: a pool mixing all index paths) and one query history of 10..30 (thorough 10..60) queries drawn with repeats from 8 distinct requests; in half of the cases the list is padded beyond the 4 KiB read block so that a rule straddles a block boundary exactly where its prefix is a valid broader rule matching a request of the history; for EVERY fault point k in 0..n and every fault kind in {RuleStorage.Close, file handle replaced by an already closed descriptor, by a directory descriptor (Seek succeeds, reads fail with EISDIR), by the read end of a closed pipe (Seek fails with ESPIPE), by an already closed descriptor of ANOTHER file that holds different matching rules at the same offsets} the engine is rebuilt, queries before k must equal a String-backed twin, queries from k on must not panic, must return a subset of the fault-free result whose members individually match, and must still return every rule materialised before k (tracked from storage.insert hook events, cross-checked with GetCacheSize); " +
-			"plus one case that materialises 9 000 (thorough 70 000) rules before each kind of fault and demands all of them afterwards; non-trivial = every (list, history) pair, each contributing 5*(n+1) fault placements; distinct by list and history length",
+		Rule: "per case one file-backed list (DNS: rules + hosts lines over colliding names; network: a pool mixing all index paths) and one query history of 10..30 (thorough 10..60) queries drawn with repeats from 8 distinct requests; in half of the cases the list is padded beyond the 4 KiB read block so that a rule straddles a block boundary exactly where its prefix is a valid broader rule matching a request of the history; for EVERY fault point k in 0..n and every fault kind in {RuleStorage.Close, file handle replaced by an already closed descriptor, by a directory descriptor (Seek succeeds, reads fail with EISDIR), by the read end of a closed pipe (Seek fails with ESPIPE), by an already closed descriptor of ANOTHER file that holds different matching rules at the same offsets, RuleStorage.Close followed by opening that other file four times (descriptor numbers are recycled)} the engine is rebuilt, queries before k must equal a String-backed twin, queries from k on must not panic, must return a subset of the fault-free result whose members individually match, and must still return every rule materialised before k (tracked from storage.insert hook events, cross-checked with GetCacheSize); " +
+			"plus one case that materialises 9 000 (thorough 70 000) rules before each kind of fault and demands all of them afterwards; non-trivial = every (list, history) pair, each contributing 6*(n+1) fault placements; distinct by list and history length",
 		Assumptions: []string{
 			"the fault-free oracle is a String-backed twin engine over the same bytes",
 			"with only a subset of rules available the selected basic rule may legitimately differ from the fault-free one; only membership and match are required",
